@@ -26,3 +26,10 @@ func NewVerifWorker(a aio.AIO, metrics *metrics.Metrics, targets map[string]*rec
 
 	return w
 }
+
+// VerifWorker returns the worker that New built (its target table is the
+// configured one plus the implicit default), so that the harness can run it
+// with capture plugins.
+func (s *Sender) VerifWorker() *SenderWorker {
+	return s.worker
+}
